@@ -141,7 +141,7 @@ func (ex *Exec) effectsOf(fr *Frame, blocks map[*ssa.BasicBlock]bool) *loopEffec
 		if fn == nil {
 			if top := fr.topFrame(); top.con != nil && curSite != nil {
 				txt := ex.prog.callFunText(curSite.Pos())
-				for _, a := range top.con.AssumePure {
+				for _, a := range append(append([]string{}, top.con.AssumePure...), top.con.AssumeFresh...) {
 					if a == txt {
 						return
 					}
